@@ -204,13 +204,19 @@ func (cj *CookieJar) parseCookiesFromResp(host, path []byte, resp *fasthttp.Resp
 
 	now := time.Now()
 	resp.Header.VisitAllCookie(func(key, value []byte) {
+		// the cookie names its own path: parse it first, then look for the stored
+		// cookie with the same key and path
+		parsed := fasthttp.AcquireCookie()
+		_ = parsed.ParseBytes(value) //nolint:errcheck // ignore error
 		created := false
-		c := searchCookieByKeyAndPath(key, path, cookies)
+		c := searchCookieByKeyAndPath(key, parsed.Path(), cookies)
 		if c == nil {
-			c, created = fasthttp.AcquireCookie(), true
+			c, created = parsed, true
+		} else {
+			c.CopyTo(parsed)
+			fasthttp.ReleaseCookie(parsed)
 		}
 
-		_ = c.ParseBytes(value) //nolint:errcheck // ignore error
 		if c.Expire().Equal(fasthttp.CookieExpireUnlimited) || c.Expire().After(now) {
 			// an updated cookie is already in the list: only a new one is appended
 			if created {
@@ -246,12 +252,20 @@ func (cj *CookieJar) Release() {
 }
 
 // searchCookieByKeyAndPath looks up a cookie by its key and path from the provided slice of cookies.
+// A cookie is identified by both: the same key stored for another path is another cookie.
+// A cookie without a path counts as stored for "/".
 func searchCookieByKeyAndPath(key, path []byte, cookies []*fasthttp.Cookie) *fasthttp.Cookie {
+	root := []byte("/")
+	if len(path) == 0 {
+		path = root
+	}
 	for _, c := range cookies {
-		if bytes.Equal(key, c.Key()) {
-			if len(path) <= 1 || bytes.HasPrefix(c.Path(), path) {
-				return c
-			}
+		cPath := c.Path()
+		if len(cPath) == 0 {
+			cPath = root
+		}
+		if bytes.Equal(key, c.Key()) && bytes.Equal(path, cPath) {
+			return c
 		}
 	}
 	return nil
